@@ -328,14 +328,268 @@ def hmf_part(tree, out):
         raise Unrecognised('chi')
 
 
+def bexpr2(node, env):
+    """bexpr plus == and != on rationals"""
+    if isinstance(node, ast.Compare) and len(node.ops) == 1 and isinstance(node.ops[0], (ast.NotEq, ast.Eq)):
+        t = '(Qeq_bool %s %s)' % (expr(node.left, env), expr(node.comparators[0], env))
+        return '(negb %s)' % t if isinstance(node.ops[0], ast.NotEq) else t
+    return bexpr(node, env)
+
+
+def truth_test(node, var, what):
+    """`VAR is not None` / `VAR` (truthiness) / `VAR is not None and VAR != 0` on an optional integer -> Coq bool of s : option Z"""
+    t = ast.unparse(node)
+    if t == '%s is not None' % var:
+        return 'match s with Some _ => true | None => false end'
+    if t == var:
+        return 'match s with Some z => negb (Z.eqb z 0) | None => false end'
+    raise Unrecognised('%s test %s' % (what, t))
+
+
+def method_call(node):
+    """self.NAME() -> NAME"""
+    if isinstance(node, ast.Call) and not node.args and not node.keywords and isinstance(node.func, ast.Attribute) \
+            and isinstance(node.func.value, ast.Name) and node.func.value.id == 'self':
+        return node.func.attr
+    raise Unrecognised('not a method call: %s' % ast.unparse(node))
+
+
+STEP_OF = {('self.a', 'astep'): 'SAstep', ('self.g', 'gstep'): 'SGstep', ('self.a, self.g', 'reorder'): 'SReorder',
+           ('self.a', 'astepnn'): 'SAstepNN', ('self.g', 'gstepnn'): 'SGstepNN'}
+BINOP = {ast.Div: '/', ast.Mult: '*', ast.Add: '+', ast.Sub: '-'}
+
+
+def step_list(stmts):
+    """[self.a = self.astep(), self.g = self.gstep(), ...] -> ([step tags], rest of the statements)"""
+    steps = []
+    for k, st in enumerate(stmts):
+        if isinstance(st, ast.Assign) and len(st.targets) == 1 and isinstance(st.value, ast.Call):
+            try:
+                key = (ast.unparse(st.targets[0]).replace('(', '').replace(')', ''), method_call(st.value))
+            except Unrecognised:
+                return steps, stmts[k:]
+            if key not in STEP_OF:
+                return steps, stmts[k:]
+            steps.append(STEP_OF[key])
+        else:
+            return steps, stmts[k:]
+    return steps, []
+
+
+def is_log(st):
+    return isinstance(st, ast.Expr) and isinstance(st.value, ast.Call) and ast.unparse(st.value.func).startswith('log.')
+
+
+def normalise_stmts(stmts, out, emit, line=None):
+    """norm = self.normbase(); self.g OP= np.repeat(norm, M - n_zero).reshape(self.g.shape);
+       self.a = (self.a.T OP np.repeat(norm, N).reshape(self.K, N)).T"""
+    stmts = [st for st in stmts if not is_log(st)]
+    if len(stmts) != 3:
+        raise Unrecognised('normalisation: %d statements' % len(stmts))
+    s0, s1, s2 = stmts
+    if not (isinstance(s0, ast.Assign) and ast.unparse(s0) == 'norm = self.normbase()'):
+        raise Unrecognised('norm = self.normbase()')
+    if not (isinstance(s1, ast.AugAssign) and ast.unparse(s1.target) == 'self.g' and type(s1.op) in BINOP and
+            ast.unparse(s1.value) == 'np.repeat(norm, M - n_zero).reshape(self.g.shape)'):
+        raise Unrecognised('g normalisation %s' % ast.unparse(s1))
+    v = s2.value if isinstance(s2, ast.Assign) and ast.unparse(s2.targets[0]) == 'self.a' else None
+    if not (isinstance(v, ast.Attribute) and v.attr == 'T' and isinstance(v.value, ast.BinOp) and type(v.value.op) in BINOP and
+            ast.unparse(v.value.left) == 'self.a.T' and ast.unparse(v.value.right) == 'np.repeat(norm, N).reshape(self.K, N)'):
+        raise Unrecognised('a normalisation %s' % ast.unparse(s2))
+    if emit:
+        # np.repeat(norm, ncols).reshape(K, ncols)[k, j] = norm[k]: one factor per ROW of g; through the two transposes
+        # np.repeat(norm, N).reshape(K, N)[k, i] = norm[k] multiplies a[i, k]: one factor per COLUMN of a
+        out.append(defn('g_norm_g', ['g n : Q'], 'Q', '(g %s n)' % BINOP[type(s1.op)], s1.lineno))
+        out.append(defn('g_norm_g_axis', [], 'scale_axis', 'ScaleRows'))
+        out.append(defn('g_norm_a', ['a n : Q'], 'Q', '(a %s n)' % BINOP[type(v.value.op)], s2.lineno))
+        out.append(defn('g_norm_a_axis', [], 'scale_axis', 'ScaleCols'))
+    return [ast.unparse(s1), ast.unparse(s2)]
+
+
+def iterate_part(tree, out):
+    """HMF.__init__ (seed, n_iter defaults) and HMF.iterate (seed test before kmeans, initial normalisation, the 128 initial
+    non-negative coefficient updates, the loop body as a list of steps per mode, the normalisation statements)"""
+    c = 'HMF'
+    init = find_def(tree, '__init__', c)
+    a = the_assign(init, 'self.seed')
+    t = ast.unparse(a.value)
+    if t == 'seed':
+        body = 's'
+    elif t in ('seed or None', 'seed if seed else None'):
+        body = 'match s with Some z => if Z.eqb z 0 then None else Some z | None => None end'
+    else:
+        raise Unrecognised('self.seed = %s' % t)
+    out.append(defn('g_seed_store', ['s : option Z'], 'option Z', body, a.lineno))
+    # n_iter
+    top = the_if(init, 'n_iter is None')
+    inner = [n for n in top.body if isinstance(n, ast.If)]
+    if len(top.body) != 1 or len(inner) != 1 or ast.unparse(inner[0].test) != 'nonnegative' or len(top.orelse) != 1:
+        raise Unrecognised('n_iter defaults')
+    def const_assign(stmts):
+        if len(stmts) == 1 and isinstance(stmts[0], ast.Assign) and ast.unparse(stmts[0].targets[0]) == 'self.n_iter' \
+                and isinstance(stmts[0].value, ast.Constant) and isinstance(stmts[0].value.value, int):
+            return stmts[0].value.value
+        raise Unrecognised('n_iter default value')
+    if ast.unparse(top.orelse[0]) != 'self.n_iter = int(n_iter)':
+        raise Unrecognised('n_iter given')
+    out.append(defn('g_n_iter', ['n : option Z', 'nonneg : bool'], 'Z',
+                    'match n with None => if nonneg then %d%%Z else %d%%Z | Some v => v end' % (
+                        const_assign(inner[0].body), const_assign(inner[0].orelse)), top.lineno))
+    fn = find_def(tree, 'iterate', c)
+    body = [st for st in fn.body if not is_log(st) and not (isinstance(st, ast.Expr) and isinstance(st.value, ast.Constant))]
+    # seed: tested and applied BEFORE whiten / kmeans
+    seeds = [k for k, st in enumerate(body) if isinstance(st, ast.If) and 'self.seed' in ast.unparse(st.test)]
+    kms = [k for k, st in enumerate(body) if isinstance(st, ast.Assign) and 'kmeans(' in ast.unparse(st.value)]
+    wh = [k for k, st in enumerate(body) if isinstance(st, ast.Assign) and 'whiten(' in ast.unparse(st.value)]
+    if len(seeds) != 1 or len(kms) != 1 or len(wh) != 1 or not (seeds[0] < wh[0] < kms[0]):
+        raise Unrecognised('seed / whiten / kmeans order')
+    sif = body[seeds[0]]
+    if sif.orelse or texts(sif.body) != ['np.random.seed(self.seed)']:
+        raise Unrecognised('seed application %s' % texts(sif.body))
+    if any('random' in ast.unparse(st) for st in body[:seeds[0]]):
+        raise Unrecognised('random numbers used before the seed is applied')
+    out.append(defn('g_seed_test', ['s : option Z'], 'bool', truth_test(sif.test, 'self.seed', 'seed'), sif.lineno))
+    if ast.unparse(body[kms[0]]) != 'self.g, foo = kmeans(whitespectra, self.K)' or \
+            ast.unparse(body[wh[0]]) != 'whitespectra = whiten(self.spectra)':
+        raise Unrecognised('kmeans initialisation')
+    # initial normalisation of g directly after kmeans
+    st = body[kms[0] + 1]
+    if not (isinstance(st, ast.AugAssign) and isinstance(st.op, ast.Div) and
+            ast.unparse(st) == 'self.g /= np.repeat(self.normbase(), M - n_zero).reshape(self.g.shape)'):
+        raise Unrecognised('initial normalisation')
+    # initial a and the initial non-negative coefficient updates
+    a0 = body[kms[0] + 2]
+    if ast.unparse(a0) != 'self.a = np.outer(np.sqrt((self.spectra ** 2).mean(1)), np.repeat(1.0 / self.K, self.K))':
+        raise Unrecognised('initial a')
+    nn0 = body[kms[0] + 3]
+    if not (isinstance(nn0, ast.If) and ast.unparse(nn0.test) == 'self.nonnegative' and not nn0.orelse and len(nn0.body) == 1 and
+            isinstance(nn0.body[0], ast.For) and isinstance(nn0.body[0].iter, ast.Call) and ast.unparse(nn0.body[0].iter.func) == 'range'
+            and len(nn0.body[0].iter.args) == 1 and isinstance(nn0.body[0].iter.args[0], ast.Constant)):
+        raise Unrecognised('initial non-negative updates')
+    steps, rest = step_list(nn0.body[0].body)
+    if rest:
+        raise Unrecognised('initial non-negative loop body')
+    out.append(defn('g_nn_init_count', [], 'nat', '%d%%nat' % nn0.body[0].iter.args[0].value, nn0.lineno))
+    out.append(defn('g_nn_init_steps', [], 'list hstep', '[%s]' % '; '.join(steps)))
+    # the main loop
+    loop = the_for(fn, 'm', 'range(self.n_iter)')
+    lb = [st for st in loop.body if not is_log(st)]
+    if not lb or not (isinstance(lb[0], ast.If) and ast.unparse(lb[0].test) == 'self.nonnegative'):
+        raise Unrecognised('loop body does not start with the mode test')
+    nn_steps, nn_rest = step_list([st for st in lb[0].body if not is_log(st)])
+    std_steps, std_rest = step_list([st for st in lb[0].orelse if not is_log(st)])
+    tail = lb[1:]
+    # the normalisation may sit after the mode test (both modes) or inside the branches
+    def norm_of(rest):
+        if not rest:
+            return []
+        normalise_stmts(rest, out, False)
+        return ['SNormalise']
+    nn_steps += norm_of(nn_rest)
+    std_steps += norm_of(std_rest)
+    emitted = False
+    for grp in (tail, std_rest, nn_rest):
+        if grp and not emitted:
+            normalise_stmts(grp, out, True)
+            emitted = True
+    if not emitted:
+        raise Unrecognised('no normalisation statements in the loop')
+    tail_steps = norm_of(tail)
+    if tail and (std_rest or nn_rest):
+        if normalise_stmts(tail, out, False) != normalise_stmts(std_rest or nn_rest, out, False):
+            raise Unrecognised('different normalisation statements')
+    out.append(defn('g_iter_nn', [], 'list hstep', '[%s]' % '; '.join(nn_steps + tail_steps), lb[0].lineno))
+    out.append(defn('g_iter_std', [], 'list hstep', '[%s]' % '; '.join(std_steps + tail_steps)))
+    r = [st for st in fn.body if isinstance(st, ast.Return)]
+    if len(r) != 1 or ast.unparse(r[0].value) != '(self.a, self.g)':
+        raise Unrecognised('iterate return')
+    # solve(): the dictionary keys
+    sv = find_def(tree, 'solve', c)
+    if ast.unparse(the_assign(sv, '(a, g)').value) != 'self.iterate()' or ast.unparse(the_assign(sv, "fluxdict['acoeff']").value) != 'a':
+        raise Unrecognised('solve')
+    fl = assigns(sv, "fluxdict['flux']")
+    if sorted(ast.unparse(x.value) for x in fl) != ['g', "self.spectra.astype('f')"]:
+        raise Unrecognised('solve flux')
+
+
+def pca_part(tree, out):
+    """decision logic and elementwise formulas of pca_solve"""
+    fn = find_def(tree, 'pca_solve')
+    i = the_if(fn, 'nreturn is None')
+    if texts(i.body) != ['nreturn = nkeep'] or i.orelse:
+        raise Unrecognised('nreturn default')
+    out.append(defn('g_pca_nreturn', ['nreturn : option nat', 'nkeep : nat'], 'nat',
+                    'match nreturn with None => nkeep | Some v => v end', i.lineno))
+    # synthetic weights
+    a = the_assign(fn, 'synwvec')
+    if ast.unparse(a.value) != "np.ones((npix,), dtype='d')":
+        raise Unrecognised('synwvec initial value')
+    out.append(defn('g_pca_synw_default', [], 'Q', '(1 # 1)', a.lineno))
+    loop = the_for(fn, 'ipix', 'range(npix)')
+    a = the_assign(loop, 'indx')
+    out.append(defn('g_pca_synw_good', ['v : Q'], 'bool', bexpr2(a.value, {'newivar[:, ipix]': 'v'}), a.lineno))
+    i = the_if(loop, 'indx.any()')
+    if texts(i.body) != ['synwvec[ipix] = newivar[indx, ipix].mean()'] or i.orelse:
+        raise Unrecognised('synwvec rule')
+    # masks
+    a = the_assign(fn, 'inmask')
+    out.append(defn('g_pca_inmask', ['v : Q'], 'bool', bexpr2(a.value, {'newivar': 'v'}), a.lineno))
+    w = [n for n in ast.walk(fn) if isinstance(n, ast.While)]
+    if len(w) != 1 or ast.unparse(w[0].test) not in ('qdone == 0 and iiter <= maxiter',):
+        raise Unrecognised('rejection loop condition')
+    t = w[0].test.values[1]
+    cmpop = {ast.LtE: 'Nat.leb iiter maxiter', ast.Lt: 'Nat.ltb iiter maxiter'}.get(type(t.ops[0]))
+    out.append(defn('g_pca_continue', ['qdone : bool', 'iiter maxiter : nat'], 'bool', '(andb (negb qdone) (%s))' % cmpop, w[0].lineno))
+    rj = the_assign(w[0], '(outmask, qdone)')
+    if ast.unparse(rj.value) != 'djs_reject(newflux, ymodel, inmask=inmask, outmask=outmask, invvar=newivar)':
+        raise Unrecognised('djs_reject call')
+    if ast.unparse(the_assign(w[0], 'filtflux').value) != 'newflux.copy()':
+        raise Unrecognised('filtflux start')
+    a = the_assign(w[0], 'maskivar')
+    out.append(defn('g_pca_maskivar', ['v m : Q'], 'Q', expr(a.value, {'newivar': 'v', 'outmask': 'm'}), a.lineno))
+    a = the_assign(w[0], 'sqivar')
+    if not (isinstance(a.value, ast.Call) and ast.unparse(a.value.func) == 'np.sqrt' and len(a.value.args) == 1):
+        raise Unrecognised('sqivar')
+    out.append(defn('g_pca_weight', ['mi : Q'], 'Q', expr(a.value.args[0], {'maskivar': 'mi'}), a.lineno))
+    a = the_assign(w[0], 'out')
+    if ast.unparse(a.value) != 'computechi2(newflux[iobj, :], sqivar[iobj, :], pres[:, 0:nkeep])':
+        raise Unrecognised('computechi2 call')
+    a = the_assign(w[0], 'filtflux[iobj, :]')
+    out.append(defn('g_pca_filt', ['mi f sw y : Q'], 'Q', expr(a.value, {
+        'maskivar[iobj, :]': 'mi', 'newflux[iobj, :]': 'f', 'synwvec': 'sw', 'out.yfit': 'y'}), a.lineno))
+    if ast.unparse(the_assign(w[0], 'acoeff[iobj, :]').value) != 'out.acoeff':
+        raise Unrecognised('acoeff')
+    # which objects enter pcomp, and what is taken from it
+    a = the_assign(w[0], 'goodobj')
+    out.append(defn('g_pca_goodobj', ['totflux : Q'], 'bool', bexpr(a.value, {'totflux': 'totflux'}), a.lineno))
+    i = the_if(w[0], 'goodobj.all()')
+    if texts(i.body) != ['tmp = pcomp(filtflux.T)', 'pres = tmp.derived', 'eigenval = tmp.eigenvalues']:
+        raise Unrecognised('pcomp call')
+    # results
+    um = assigns(fn, 'usemask')
+    if sorted(ast.unparse(x.value) for x in um) != ['outmask', 'outmask.sum(0)']:
+        raise Unrecognised('usemask')
+    out.append(defn('g_pca_usemask_axis', [], 'nat', '0%nat'))
+    if sorted(ast.unparse(x.value) for x in assigns(fn, "fluxdict['flux']")) != ["newflux.astype('f')", "pres[:, 0:nreturn].transpose().astype('f')"]:
+        raise Unrecognised('returned flux')
+    if ast.unparse(the_assign(fn, "fluxdict['eigenval']").value) != 'eigenval[0:nreturn]' or \
+            ast.unparse(the_assign(fn, "fluxdict['acoeff']").value) != 'acoeff' or \
+            ast.unparse(the_assign(fn, "fluxdict['usemask']").value) != 'usemask' or \
+            ast.unparse(the_assign(fn, "fluxdict['outmask']").value) != 'outmask':
+        raise Unrecognised('returned dictionary')
+
+
 HEADER = '''(* GENERATED by translate/c15.py from pydl/pydlutils/math.py, pydl/pcomp.py and pydl/pydlspec2d/spec1d.py -- do not edit *)
-From Coq Require Import QArith Qminmax ZArith Bool.
+From Coq Require Import QArith Qminmax ZArith Bool List.
+Import ListNotations.
 Open Scope Q_scope.
 
 Definition gQlt_bool (a b : Q) : bool := negb (Qle_bool b a).
 (* v broadcast over a matrix: ScaleRows = entry [i, k] uses v[i] ; ScaleCols = entry [i, k] uses v[k] *)
 Inductive scale_axis := ScaleRows | ScaleCols.
 Inductive sort_order := Descending | Ascending.
+(* the updates inside HMF.iterate's loop *)
+Inductive hstep := SAstep | SGstep | SReorder | SAstepNN | SGstepNN | SNormalise.
 '''
 
 
@@ -348,7 +602,12 @@ def generate(repo):
         out.append('(* ---- pcomp (pydl/pcomp.py) *)')
         pcomp_part(ast.parse(open(os.path.join(repo, 'pydl/pcomp.py')).read()), out)
         out.append('(* ---- HMF (pydl/pydlspec2d/spec1d.py) *)')
-        hmf_part(ast.parse(open(os.path.join(repo, 'pydl/pydlspec2d/spec1d.py')).read()), out)
+        spec1d = ast.parse(open(os.path.join(repo, 'pydl/pydlspec2d/spec1d.py')).read())
+        hmf_part(spec1d, out)
+        out.append('(* ---- HMF.__init__ / iterate / solve: seed handling, defaults, loop structure, normalisation *)')
+        iterate_part(spec1d, out)
+        out.append('(* ---- pca_solve (pydl/pydlspec2d/spec1d.py): decision logic and elementwise formulas *)')
+        pca_part(spec1d, out)
         out.append('Definition chi2_recognised : bool := true.')
     except (Unrecognised, SyntaxError, OSError, AttributeError, StopIteration, IndexError) as e:
         info['recognised'] = False
